@@ -42,3 +42,51 @@ def scan(repo):
     # external enums the encoder meets
     enums.setdefault("Error", []).append(["QueryReturnedNoRows", "InvalidColumnType", "InvalidColumnIndex", "IntegralValueOutOfRange", "SqliteFailure"])
     return enums
+
+
+def scan_structs(repo):
+    """struct name -> ordered field names (named-field structs only), from the current source"""
+    structs = {}
+    for path in glob.glob(os.path.join(repo, "crates", "*", "src", "**", "*.rs"), recursive=True):
+        src = open(path).read()
+        for m in re.finditer(r"\bstruct\s+(\w+)\s*(?:<[^>{]*>)?\s*\{", src):
+            i = m.end()
+            depth = 1
+            body = []
+            while i < len(src) and depth > 0:
+                c = src[i]
+                if c in "{([<":
+                    depth += 1
+                elif c in "})]>":
+                    if not (c == ">" and src[i - 1] == "-"):
+                        depth -= 1
+                    if depth == 0:
+                        break
+                body.append(c if depth >= 1 else "")
+                i += 1
+            text = "".join(body)
+            text = re.sub(r"//[^\n]*", "", text)
+            text = re.sub(r"/\*.*?\*/", "", text, flags=re.S)
+            text = re.sub(r"#\[[^\]]*\]", "", text)
+            fields = []
+            d = 0
+            cur = []
+            for ch in text:
+                if ch in "<([{":
+                    d += 1
+                elif ch in ">)]}":
+                    d -= 1
+                if ch == "," and d == 0:
+                    fields.append("".join(cur))
+                    cur = []
+                else:
+                    cur.append(ch)
+            if "".join(cur).strip():
+                fields.append("".join(cur))
+            names = []
+            for f in fields:
+                fm = re.match(r"^\s*(?:pub(?:\([^)]*\))?\s+)?(\w+)\s*:", f)
+                if fm:
+                    names.append(fm.group(1))
+            structs.setdefault(m.group(1), []).append(names)
+    return structs
